@@ -15,11 +15,12 @@ def mtOk (n T ecount : Nat) (lims fired : List Nat) : Bool :=
   ecount == T && lims.length == fired.length &&
     (lims.zip fired).all (fun p => p.2 == minLim p.1 (minLim n T))
 
-/-- `pt`: exactly one Trigger call wins; a callback that was never unsubscribed ran exactly once
+/-- `pt` (summed over the rounds of one run): `truesBad` = rounds in which not exactly one Trigger
+call won; a callback that was never unsubscribed ran exactly once
 (`keep0 = keepN = 0`); one that was unsubscribed before any Trigger call began never ran; one
 unsubscribed concurrently ran at most once; arguments and children consistent. -/
-def ptOk (trues keep0 keepN earlyN racyN badarg : Nat) : Bool :=
-  trues == 1 && keep0 == 0 && keepN == 0 && earlyN == 0 && racyN == 0 && badarg == 0
+def ptOk (truesBad keep0 keepN earlyN racyN badarg : Nat) : Bool :=
+  truesBad == 0 && keep0 == 0 && keepN == 0 && earlyN == 0 && racyN == 0 && badarg == 0
 
 /-- `hw`: `T` triggers in total; `f1` of them had finished before `Hook` was called, `s2` had started
 when `Hook` returned; if the hook was unhooked, `uf` had finished before `Unhook` was called and
@@ -52,8 +53,8 @@ def checkMT (toks : List String) : String :=
 def checkPT (toks : List String) : String :=
   let (a, b) := splitArrow toks
   match natsOf a, natsOf b with
-  | some [_, _, _], some [trues, keep0, _keep1, keepN, _early0, earlyN, _racy0, _racy1, racyN, badarg] =>
-    verdict (ptOk trues keep0 keepN earlyN racyN badarg) "callback-not-exactly-once"
+  | some [_, _, _, _], some [truesBad, keep0, _keep1, keepN, _early0, earlyN, _racy0, _racy1, racyN, badarg] =>
+    verdict (ptOk truesBad keep0 keepN earlyN racyN badarg) "callback-not-exactly-once"
   | _, _ => "bad-op"
 
 def parseHook (t : String) : Option (Nat × Nat × Option (Nat × Nat) × Nat) :=
